@@ -182,7 +182,9 @@ fn c05_ws_server(case: &Case) {
     let stall_after = pick(&[0usize, 1, 3, 8]);
     let stall_ms = pick(&[0u64, 2, 10, 100, 1_000]);
     let out_cap = pick(&[4usize, 16, 256]);
-    case.sample(json!({"ops": ops, "capacity": capacity, "client_stalls_after_messages": stall_after, "stall_ms": stall_ms, "outbound_capacity": out_cap}));
+    // an assumed peer frame limit (also tiny ones): replaced / dropped messages must still be whole frames
+    let peer_limit: Option<usize> = pick(&[None, None, None, Some(100usize), Some(128), Some(160), Some(1024), Some(4096)]);
+    case.sample(json!({"ops": ops, "capacity": capacity, "client_stalls_after_messages": stall_after, "stall_ms": stall_ms, "outbound_capacity": out_cap, "assumed_peer_frame_limit": peer_limit}));
     let case = case.clone();
     aio::run(&case.clone(), 3_600, async move {
         let reg = PeerRegistry::new();
@@ -203,7 +205,12 @@ fn c05_ws_server(case: &Case) {
             });
         let listener = WebSocketServer::listen("127.0.0.1:0").await.unwrap();
         let addr = listener.local_addr().unwrap();
-        let server = WebSocketServer::new(router).with_peer_registry(reg.clone()).with_outbound_capacity(out_cap).with_offreader_limit(0);
+        let server = WebSocketServer::new(router)
+            .with_limits(repe::WebSocketLimits::default().with_assumed_peer_frame_limit(peer_limit))
+            .on_error(|_e| {})
+            .with_peer_registry(reg.clone())
+            .with_outbound_capacity(out_cap)
+            .with_offreader_limit(0);
         let srv = tokio::spawn(async move {
             let _ = server.serve_listener(listener, "/repe").await;
         });
@@ -261,6 +268,9 @@ fn c05_ws_server(case: &Case) {
                     let ok = if f.notify != 0 {
                         let tag: u64 = qs.rsplit('/').next().and_then(|s| s.parse().ok()).unwrap_or(0);
                         qs.starts_with("/pushed/") && is_pattern(tag, &f.body)
+                    } else if f.ec != 0 {
+                        // a response replaced by the outbound guard: any body, but a whole frame
+                        peer_limit.is_some()
                     } else if qs == "/push" {
                         f.body == b"{\"ok\":true}"
                     } else {
